@@ -220,8 +220,11 @@ def judge(logs, order, obs, pairs=None):
                 # pure-PFADD logs: replies and the PFCOUNTs after the final flush + restart only (the other views of
                 # such keys depend on flush times: open findings)
                 pfr = lambda d: " ".join(e for e in d.split(" || ") if e.startswith("pfr"))
-                if A["replies"] != B["replies"]:
-                    i, x, y = first_diff(B["replies"], A["replies"])
+                nm = cmd_names(L["reqs"])
+                # (the reply of DEL on a PFADDed key depends on whether the sketch had reached the engine: open finding)
+                nodel = lambda rs: " ; ".join(r for r, n in zip(rs.split(" ; "), nm) if n != "del")
+                if nodel(A["replies"]) != nodel(B["replies"]):
+                    i, x, y = first_diff(nodel(B["replies"]), nodel(A["replies"]))
                     fails.append(dict(log=lid, a=b, b=a, dim=dim, kind="replies", what="reply of request %d differs: %s vs %s" % (i, x, y)))
                 elif pfr(A["dump"]) != pfr(B["dump"]):
                     fails.append(dict(log=lid, a=b, b=a, dim=dim, kind="pfr",
